@@ -313,6 +313,13 @@ func C04(c *vk.Ctx) {
 	}
 	// digest covers exactly the signed portion: CrlReader.tla DigestExact is part of C06; here every byte of tbs / signature of one small CRL
 	n += c04ByteSweep(c, rng)
+	// histories: an unentitled signer must not get in through a later intake path either (refresh after a rejected refresh,
+	// signer retry from the chain of a handshake, restart): Revocation.tla with the end-entity "E" among the signers
+	hcfgs := []HubCfg{
+		{Mode: "crl_only", Sig: "verify", Strict: true, Fetch: "actively", Disk: false, TrustA: false, Conf: "none", Ocsp: "noaia"},
+		{Mode: "crl_only", Sig: "verify", Strict: false, Fetch: "actively", Disk: true, TrustA: true, Conf: "none", Ocsp: "noaia"},
+	}
+	hubCampaign(c, hcfgs, c.Pick(1400, 30000), c.Pick(1, 6), 60, predC04hub)
 	c.Set("traces_validated_against_impl", int64(n))
 	c.Set("exhaustive", c.Thorough())
 	c.Set("spec", "Authz.tla: the decision table signer(7) x AKI form(6) x keyUsage(3) x algorithm x mutation site(5); OnlyEntitled (mechanism in force => requirement allows it) and Complete proved on every row; CrlReader.tla DigestExact for 'exactly the signed portion'")
@@ -366,4 +373,21 @@ func c04ByteSweep(c *vk.Ctx, rng *mrand.Rand) int {
 		az.close()
 	}
 	return n
+}
+
+// predC04hub: under 'verify' only entitled, verified CRLs are ever in force - on every intake path of a history.
+func predC04hub(c *vk.Ctx, o *hubObs) {
+	if o.Op[0] != "handshake" || o.Cfg.Sig != "verify" || !realDecided(o.Verdict) || o.Exp.Cause != "crl" {
+		return
+	}
+	cert := o.Exp.Cert
+	intake := lastIntake(o)
+	switch {
+	case o.Cfg.Strict && o.Cdp == "D" && o.Verdict == "accept" && !o.Exp.Inforce["D"]:
+		c.Violation("history:unentitled-crl-satisfies-strict:intake="+intake, fmt.Sprintf("a CRL that no entitled issuer signed satisfies the strict gate for %s after intake path %s; cfg=%s", cert, intake, o.Cfg), hubReplay(o))
+	case o.Verdict == "accept" && o.Exp.Listed[cert]:
+		c.Violation("history:entitled-crl-displaced:intake="+intake, fmt.Sprintf("%s is listed by the CRL that is in force by policy, but was accepted: the list in use is not the entitled one (intake path %s); cfg=%s", cert, intake, o.Cfg), hubReplay(o))
+	case o.Verdict == "revoked" && !o.Exp.Listed[cert]:
+		c.Violation("history:unentitled-entries-revoke:intake="+intake, fmt.Sprintf("%s is revoked by entries of a CRL that never came into force by policy (intake path %s); cfg=%s", cert, intake, o.Cfg), hubReplay(o))
+	}
 }
